@@ -4310,7 +4310,21 @@ fn attribute_name(name: &parser::AttributeName) -> (String, Option<String>) {
 }
 
 fn attr_value_from_name(name: &str, context: &Context) -> error::Result<String> {
+    expand_entity(name, context, &mut vec![])
+}
+
+fn expand_entity(
+    name: &str,
+    context: &Context,
+    parents: &mut Vec<String>,
+) -> error::Result<String> {
+    if parents.iter().any(|v| v == name) {
+        // Well-formedness constraint: No Recursion
+        return Err(error::Error::InvalidData(format!("&{};", name)));
+    }
+
     let entity = context.entity(name)?;
+    parents.push(name.to_string());
     let mut parsed = String::new();
     for value in entity.borrow().values().unwrap_or_default() {
         match &value {
@@ -4320,7 +4334,7 @@ fn attr_value_from_name(name: &str, context: &Context) -> error::Result<String> 
                 _ => unreachable!(),
             },
             XmlEntityValue::Entity(v) => {
-                let v = attr_value_from_name(v, context)?;
+                let v = expand_entity(v, context, parents)?;
                 parsed.push_str(v.as_str());
             }
             XmlEntityValue::Parameter(v) => {
@@ -4330,6 +4344,7 @@ fn attr_value_from_name(name: &str, context: &Context) -> error::Result<String> 
             XmlEntityValue::Text(v) => parsed.push_str(normalize_ws(v).as_str()),
         }
     }
+    parents.pop();
     Ok(parsed)
 }
 
